@@ -143,3 +143,95 @@ func VerifC18_compressed() {
 	}
 	verifReached("c18-compressed")
 }
+
+// Compression at the compact-length-prefix boundaries, and re-encoding of a buffered batch.
+//
+// (a) Flexible versions write the records as compact bytes (uvarint of length+1). The batch is
+// written uncompressed first, compressed in place, and the prefix re-written; the compressed
+// batch has to be shifted down exactly when the NEW prefix is shorter than the old one. The
+// interesting inputs are uncompressed batch lengths at 126..129 and 16382..16385 (length+1
+// crossing 128 / 16384) against compressed lengths on either side. One record whose value
+// length puts the uncompressed batch at every length in those windows; compressor output of
+// 3 bytes, one byte shorter than the input, or exactly at the lower boundary.
+// (b) A batch that stays buffered is encoded again on retry, possibly under a different codec
+// decision (zstd is disabled below produce v7; a compressor may decline): the second
+// encoding's attributes carry the second codec only.
+func VerifC18_compressedBoundaryAndReencode() {
+	verifUnwind(20000) // byte loops over a 16 KiB value
+	ev := []int16{9, 12}[verifChoose(2)]
+	comp := &verifC18Compressor{}
+	window := verifChoose(2)
+	delta := verifChoose(5) // uncompressed batch length window: boundary-2 .. boundary+2
+	comp.outLen = []int{3, 999}[verifChoose(2)]
+	codec := int8(1 + verifChoose(4))
+	comp.codec = CompressionCodecType(codec)
+	cid := "cl"
+	e := verifC18NewEnv(int32(ev), &cid, nil, ev >= 12, 100<<20, 1000012)
+	e.cl.cfg.compressor = comp
+	var tid [16]byte
+	tid[0] = 1
+	rb := e.addBuf("topic", tid, 2)
+
+	// a record with an empty non-null key and a v-byte value occupies 7+v bytes (v < 8192: the
+	// record length and value length varints take 1 byte below 57/64 and 2..3 bytes above);
+	// the batch is 61 header bytes + records. Pick v so that 61 + recordSize == target.
+	boundary := []int{127, 16383}[window]
+	target := boundary - 2 + delta
+	v := 0
+	for cand := boundary - 90; cand < boundary-40; cand++ {
+		body := 1 + 1 + 1 + 1 + kbinVarintLenC18(int32(cand)) + cand + 1 // attrs, tsdelta, offdelta, keylen(0 => 1 byte), vallen, value, header count
+		if 61+kbinVarintLenC18(int32(body))+body == target {
+			v = cand
+			break
+		}
+	}
+	verifAssume(v > 0)
+	r := &Record{Key: []byte{}, Value: verifC18Bytes(v), Timestamp: verifC18Time(0)}
+	verifAssert(e.buffer(rb, r), "bufferRecord processes the record")
+	want := []verifC18WantRec{{key: r.Key, val: r.Value, ms: verifC18BaseMillis}}
+
+	pid, epoch := int64(77), int16(3)
+	req, _, _ := e.s.createReq(pid, epoch)
+	req.SetVersion(ev)
+	check := func(frame []byte, corr int32, wantCodec int8, label string) {
+		body, ok := verifC18SplitFrame(frame, ev, corr, &cid)
+		verifAssert(ok, "request header is well formed")
+		dec := kmsg.ProduceRequest{Version: ev}
+		verifAssert(dec.ReadFrom(body) == nil, "request body decodes as a ProduceRequest of the negotiated version (compact length prefix and batch position agree)")
+		if len(dec.Topics) != 1 || len(dec.Topics[0].Partitions) != 1 {
+			verifFail("exactly one topic and partition are written")
+			return
+		}
+		raw := dec.Topics[0].Partitions[0].Records
+		used := comp.out != nil && len(comp.out) < comp.srcLen
+		if used {
+			verifC18CheckRecordBatchC(raw, want, pid, epoch, 0, false, comp.out, int16(wantCodec))
+			verifReached(label)
+		} else {
+			verifC18CheckRecordBatch(raw, want, pid, epoch, 0, false)
+		}
+	}
+	frame := e.cl.reqFormatter.AppendRequest(nil, req, 5)
+	verifAssert(comp.srcLen == target-61, "the harness hit the intended uncompressed batch length")
+	check(frame, 5, codec, "c18-boundary-compressed")
+
+	// the same buffered batch is encoded again with another codec decision
+	codec2 := int8(1 + (int(codec)+verifChoose(3))%4)
+	comp.codec = CompressionCodecType(codec2)
+	if verifChoose(2) == 1 {
+		comp.outLen = 1000 // not shorter: the batch goes out uncompressed this time
+	}
+	frame2 := e.cl.reqFormatter.AppendRequest(nil, req, 6)
+	check(frame2, 6, codec2, "c18-reencode-compressed")
+	verifReached("c18-boundary")
+}
+
+func kbinVarintLenC18(v int32) int {
+	u := uint32(v<<1) ^ uint32(v>>31)
+	n := 1
+	for u >= 0x80 {
+		u >>= 7
+		n++
+	}
+	return n
+}
